@@ -53,6 +53,13 @@ func VerifC46_Read() {
 	var whole []byte
 	content := make(restic.IDs, n)
 	for i := 0; i < n; i++ {
+		if i > 0 && len(repo.blobs[len(repo.blobs)-1]) > 0 && verifrt.Bool("repeatPrevious") {
+			// the same blob again (runs of identical chunks, e.g. zero-filled regions)
+			content[i] = content[i-1]
+			whole = append(whole, repo.blobs[len(repo.blobs)-1]...)
+			verifrt.Reach("repeated-blob")
+			continue
+		}
 		b := verifrt.Bytes("blob", bmax)
 		var id restic.ID
 		id[0] = byte(i + 1)
@@ -99,4 +106,86 @@ func VerifC46_Read() {
 	} else {
 		verifrt.Reach("empty-read")
 	}
+}
+
+// ---- concurrent readers, failing downloads -------------------------------------------------------
+
+type verifC46SlowRepo struct {
+	verifC46Repo
+	failFirst bool // the first download of the middle blob fails (transient error / interrupted reader)
+	calls     int
+}
+
+var errVerifC46 = verifC46Err("download interrupted")
+
+type verifC46Err string
+
+func (e verifC46Err) Error() string { return string(e) }
+
+func (r *verifC46SlowRepo) LoadBlob(_ context.Context, h restic.BlobHandle, _ []byte) ([]byte, error) {
+	r.calls++
+	mine := r.calls
+	// the download takes time: block until an independent goroutine completes it, so that a second
+	// reader can arrive while the first download is in flight (every order is explored)
+	done := make(chan struct{})
+	go func() { close(done) }()
+	<-done
+	i := r.find(h.ID)
+	verifrt.Assert(i >= 0, "LoadBlob called for a blob that is not part of the file")
+	if r.failFirst && mine == 1 {
+		return nil, errVerifC46
+	}
+	return append([]byte(nil), r.blobs[i]...), nil
+}
+
+// VerifC46_ConcurrentReads: two readers read the same range of a one-blob file at the same time
+// through the shared blob cache; the first download may fail. Each reader gets either an error or
+// exactly the requested bytes - never fewer or other bytes with a nil error.
+func VerifC46_ConcurrentReads() {
+	blob := verifrt.BytesN("blob", 2)
+	var id restic.ID
+	id[0] = 1
+	repo := &verifC46SlowRepo{failFirst: verifrt.Bool("firstDownloadFails")}
+	repo.ids, repo.blobs = []restic.ID{id}, [][]byte{blob}
+	node := &data.Node{Name: "f", Type: data.NodeTypeFile, Content: restic.IDs{id}, Size: 2}
+	root := &Root{repo: repo, blobCache: bloblru.New(1 << 20)}
+	f := &file{root: root, node: node, inode: 7}
+	h, err := f.Open(context.Background(), nil, nil)
+	verifrt.Assert(err == nil, "Open must succeed when all blobs are indexed")
+	of := h.(*openFile)
+
+	type result struct {
+		err  error
+		data []byte
+	}
+	res := make([]result, 2)
+	done := make(chan int, 2)
+	for r := 0; r < 2; r++ {
+		r := r
+		go func() {
+			req := &fuse.ReadRequest{Offset: 0, Size: 2}
+			resp := &fuse.ReadResponse{Data: make([]byte, 2)}
+			err := of.Read(context.Background(), req, resp)
+			res[r] = result{err, resp.Data}
+			done <- r
+		}()
+	}
+	<-done
+	<-done
+	failed := 0
+	for r := 0; r < 2; r++ {
+		if res[r].err != nil {
+			failed++
+			continue
+		}
+		verifrt.Assert(len(res[r].data) == 2 && res[r].data[0] == blob[0] && res[r].data[1] == blob[1], "a reader got fewer or other bytes than the file holds, without an error")
+	}
+	if repo.failFirst {
+		verifrt.Reach("first-download-failed")
+		verifrt.Assert(failed <= 1, "one failed download made both readers fail although the blob can be downloaded")
+	} else {
+		verifrt.Assert(failed == 0, "a read failed although every download succeeded")
+		verifrt.Assert(repo.calls == 1, "the blob was downloaded twice although the readers share the cache")
+	}
+	verifrt.Reach("both-read")
 }
